@@ -5,7 +5,8 @@
    (oracle), a_k = (nf_k / sqrt(nu_k)) Q c_k = coefficients of the k-th multivariate eigenfunction. *)
 From Coq Require Import List Reals QArith.
 From FDAV Require Import Base.Num Base.Vec Model.Stats Model.Scores Model.Mfpca
-  Lemmas.Vec Lemmas.Scores Lemmas.Mfpca.
+  Lemmas.Vec Lemmas.Gram Lemmas.Scores Lemmas.Mfpca Lemmas.PermEquiv.
+From Coq Require Import Permutation.
 Import ListNotations.
 Local Open Scope R_scope.
 
@@ -67,3 +68,29 @@ Example C04_example :
   blockdiag opsQ [[[2]]; [[1; 0]; [0; 3]]] = [[2; 0; 0]; [0; 1; 0]; [0; 0; 3]] /\
   prod_inner opsQ [[[2]]; [[1; 0]; [0; 3]]] [[1]; [1; 1]] [[1]; [2; 1]] == 7.
 Proof. split; vm_compute; reflexivity. Qed.
+
+(* ---- listing the components in another order = a simultaneous re-indexing s of the stacked coordinates
+   (s any permutation of 0..M-1; for a permutation of components it is the concatenation of the blocks'
+   index ranges).  The covariance of the re-indexed scores is the re-indexed covariance; every eigenpair of
+   the re-indexed matrix problem is the re-indexed eigenvector with the SAME eigenvalue; inner products
+   and hence the scores (score row . eigenvector) are unchanged. ---- *)
+Theorem C04_perm_covariance : forall s M S a b, Permutation s (seq 0 M) -> Forall (fun r => length r = M) S ->
+  (2 <= length S)%nat -> (a < M)%nat -> (b < M)%nat ->
+  ent (cov opsR M (map (reidx s) S)) a b = ent (cov opsR M S) (nth a s 0%nat) (nth b s 0%nat).
+Proof. exact cov_reidx_entry. Qed.
+Print Assumptions C04_perm_covariance.
+Theorem C04_perm_eigenpair : forall s M A c nu, Permutation s (seq 0 M) -> length A = M ->
+  Forall (fun r => length r = M) A -> length c = M ->
+  mv opsR A c = vscale opsR nu c -> mv opsR (reidxM s A) (reidx s c) = vscale opsR nu (reidx s c).
+Proof. exact eigenpair_reidx. Qed.
+Print Assumptions C04_perm_eigenpair.
+Theorem C04_perm_inner_product : forall s M v w, Permutation s (seq 0 M) -> length v = M -> length w = M ->
+  dot opsR (reidx s v) (reidx s w) = dot opsR v w.
+Proof. exact dot_reidx. Qed.
+Print Assumptions C04_perm_inner_product.
+Theorem C04_perm_scores_unchanged : forall s M S c, Permutation s (seq 0 M) -> Forall (fun r => length r = M) S ->
+  length c = M -> mv opsR (map (reidx s) S) (reidx s c) = mv opsR S c.
+Proof. exact scores_reidx. Qed.
+Print Assumptions C04_perm_scores_unchanged.
+Example C04_perm_nonvacuous : Permutation [2; 3; 4; 0; 1]%nat (seq 0 5).
+Proof. exact (Permutation_app_comm [2; 3; 4]%nat [0; 1]%nat). Qed.
